@@ -75,6 +75,7 @@ type Machine struct {
 	KnownListed      map[string]bool
 	Witness          bool
 	TolerantInit     func(pkgPath string) bool
+	Stubs            map[string]*ssa.Function // full function name -> replacement (per-harness stubs of /repo functions)
 	jsonAppendString *ssa.Function
 	witnessed        map[string]bool
 }
@@ -297,6 +298,10 @@ func (m *Machine) callSSA(caller *frame, pos token.Pos, fn *ssa.Function, args [
 			m.initPackage(fn.Pkg)
 			return nil
 		}
+	}
+	if st, ok := m.Stubs[name]; ok && st != fn {
+		m.IntrHits["stub:"+name]++
+		return m.callSSA(caller, pos, st, args, nil)
 	}
 	if in, ok := m.intrinsics[name]; ok {
 		m.IntrHits[name]++
